@@ -40,6 +40,7 @@ type fnSpec struct {
 	effects      bool
 	consts       map[string]string // package-level constants the function names (checked against the source)
 	typeMap      map[string]string // Go struct name -> schema name, where this function needs a different view
+	errChan      bool // errors are reported by sending on errCh (recorded as effects), not returned
 	loop         bool // translate one iteration of the receive loop inside the function (see translate)
 	uses         map[string]bool // translated functions this one calls (filled while translating)
 }
@@ -54,6 +55,30 @@ func (f *fnSpec) isState(r string) bool {
 }
 
 var specs = []fnSpec{
+	{
+		file: "server/server.go", goName: "doGet", callAs: "s.doGet", leanName: "doGet", errChan: true,
+		params: []param{
+			{goName: "req", goType: "*spb.GetRequest", lean: "req", kd: kPtr("GetRequestG")},
+			{goName: "msgCh", goType: "chan *spb.GetResponse", lean: "msgCh", kd: kStr, skip: true},
+			{goName: "doneCh", goType: "chan struct{}", lean: "doneCh", kd: kStr, skip: true},
+			{goName: "stopCh", goType: "chan struct{}", lean: "stopCh", kd: kStr, skip: true},
+			{goName: "errCh", goType: "chan error", lean: "errCh", kd: kStr, skip: true},
+		},
+		goRets: "", rets: []string{},
+		oracleParams: []param{
+			{goName: "§known", lean: "known", kd: kind{k: "list", s: "String"}},
+			{goName: "§niKnown", lean: "niKnown", kd: kind{k: "fun", t: []kind{kBool, kStr}}},
+			{goName: "§getErr", lean: "getErr", kd: kind{k: "fun", t: []kind{kind{k: "status"}, kStr}}},
+		},
+		// a RIBHolder is represented by the name of its network instance
+		oracles: map[string]oracle{
+			"s.masterRIB.KnownNetworkInstances": {results: []string{"§known"}},
+			"s.masterRIB.NetworkInstanceRIB":    {results: []string{"$0", "§niKnown@0"}},
+			"*.GetRIB":                           {results: []string{"§getErr@recv"}, effect: "getRIB", args: []int{-1, 0}},
+		},
+		typeMap: map[string]string{"GetRequest": "GetRequestG"},
+		effects: true,
+	},
 	{
 		file: "rib/rib.go", goName: "canDelete", callAs: "r.canDelete", leanName: "canDelete",
 		params: []param{
